@@ -329,6 +329,42 @@ template <class Mesh> void HistRun<Mesh>::op_set_pos(R &r, const Op &q) {
     st.add("probe_special_position");
 }
 
+// valence boundaries of the encodings: a mesh whose faces (or cells) ALL have one valence of 255 / 256 / 257 / 300
+template <class Mesh> void HistRun<Mesh>::op_big_valence(R &r, const Op &q) {
+    if (KID != 0) return;
+    static const int vals[4] = {255, 256, 257, 300};
+    int k = vals[q.a[0] % 4];
+    r.mesh->clear(false);
+    r.m.clear(); r.lat_v.clear(); r.lat_c.clear();
+    for (auto &mp : r.props) if (mp.attached && mp.kind != KM) mp.val.clear();
+    if (q.a[1] & 1) {
+        // one or two k-gons
+        std::vector<int> vs;
+        for (int i = 0; i < k; ++i) vs.push_back(w_add_vertex(r, true));
+        w_add_face_v(r, vs);
+        if (q.a[1] & 2) { std::vector<int> rv(vs.rbegin(), vs.rend()); std::vector<int> hes; int f0 = r.m.slots[BF][0]; for (int h : r.m.hf_hes(2 * f0 + 1)) hes.push_back(h); w_add_face_he(r, hes, true); }
+        st.add("probe_face_valence_" + std::to_string(k));
+    } else {
+        // bipyramid over an n-gon: one cell of valence 2n, all faces triangles
+        int n = (k + 1) / 2;
+        std::vector<int> ring;
+        for (int i = 0; i < n; ++i) ring.push_back(w_add_vertex(r, true));
+        int top = w_add_vertex(r, true), bot = w_add_vertex(r, true);
+        std::vector<int> hfs;
+        for (int i = 0; i < n; ++i) {
+            int a = ring[i], b = ring[(i + 1) % n];
+            int h1 = obtain_halfface(r, {a, b, top}), h2 = obtain_halfface(r, {b, a, bot});
+            if (h1 < 0 || h2 < 0) return;
+            hfs.push_back(h1); hfs.push_back(h2);
+        }
+        w_add_cell(r, hfs, q.a[1] & 2, true, true);
+        st.add("probe_cell_valence_" + std::to_string(2 * n));
+    }
+    post_op_light = true;
+    Op rt = q; rt.a[0] = q.a[2] & 1; rt.a[1] = q.a[3]; rt.a[2] = q.a[2] >> 1;
+    op_roundtrip(r, rt);
+}
+
 // grow to an index-width boundary cheaply: many vertices / edges / faces, few of them referenced by high indices
 template <class Mesh> void HistRun<Mesh>::op_big(R &r, const Op &q) {
     if (KID != 0) return;
